@@ -138,4 +138,21 @@ ListMut(al, s, ref) ==
       ins  == {<<GAP, RefPos(ref, i), SelectSeq(SubSeq(s, i, RunEnd(ref, i)), LAMBDA c : c # GAP)>> :
                  i \in {i \in InsertRunStarts(ref) : \E j \in i..RunEnd(ref, i) : s[j] # GAP}}
   IN subs \cup ins
+\* ---- site conservation (the Clustal conservation line; groups from the ClustalW documentation) -------------------
+StrongGroups == {{83, 84, 65}, {78, 69, 81, 75}, {78, 72, 81, 75}, {78, 68, 69, 81}, {81, 72, 82, 75}, {77, 73, 76, 86}, {77, 73, 76, 70}, {72, 89}, {70, 89, 87}}
+WeakGroups == {{67, 83, 65}, {65, 84, 86}, {83, 65, 71}, {83, 84, 78, 75}, {83, 84, 80, 65}, {83, 71, 78, 68}, {83, 78, 68, 69, 81, 75}, {78, 68, 69, 81, 72, 75}, {78, 69, 81, 72, 82, 75}, {70, 86, 76, 73, 77}, {72, 70, 89}}
+\* 0 identical (all rows equal and no gap), 1 all residues in one strong group, 2 in one weak group, 3 otherwise;
+\* the groups only apply to protein alignments
+SiteConservationErr(o, pos) == pos < 0 \/ pos >= o.len
+SiteConservation(o, pos) ==
+  LET col == Col(o, pos + 1)
+      up == {Up(col[r]) : r \in 1..Len(col)}
+      same == (\A r \in 1..Len(col) : col[r] = col[1]) /\ (\A r \in 1..Len(col) : col[r] # GAP)
+  IN IF same THEN 0
+     ELSE IF o.al = AMINOACIDS /\ \E g \in StrongGroups : up \subseteq g THEN 1
+     ELSE IF o.al = AMINOACIDS /\ \E g \in WeakGroups : up \subseteq g THEN 2
+     ELSE 3
+\* the characters of the alphabet and their indexes
+AlphabetIndex(o, c) == IF \E k \in 1..Len(AlphaChars(o)) : AlphaChars(o)[k] = Up(c) /\ o.al \in {AMINOACIDS, NUCLEOTIDS}
+                       THEN (CHOOSE k \in 1..Len(AlphaChars(o)) : AlphaChars(o)[k] = Up(c)) - 1 ELSE -1
 =============================================================================
